@@ -195,8 +195,9 @@ def taint_rules(rep, F, tag="", controls=True):
             key = "%s:%s%s" % (name, fp, tag)
             fn, c, msg, lab = items[0]
             sites = sorted({"%s:%s" % (f.rel_file, cc.line) for f, cc, _, _ in items})
-            if key in REPORTED_NOT_ARMED:
-                rep.info.setdefault("reported_not_armed", {})[key] = {"why": REPORTED_NOT_ARMED[key], "sites": sites}
+            base_key = "%s:%s" % (name, fp)     # the exemption names the function, whatever feature configuration is analysed
+            if base_key in REPORTED_NOT_ARMED:
+                rep.info.setdefault("reported_not_armed", {})[key] = {"why": REPORTED_NOT_ARMED[base_key], "sites": sites}
                 rep.ok("R20.2", "exempt:" + key)
                 continue
             rep.bad("R20.2", key, "%s (source: %s); %d flow(s) at %s" % (msg, lab, len(items), ", ".join(sites[:6])),
